@@ -49,9 +49,13 @@ Core(e)      == [live |-> e.live, attrs |-> CoreAttrs(e)]
 EntsCore(i, r) == [x \in DOMAIN Ents(i, r) |-> Core(Ents(i, r)[x])]
 RecycledDerived(i, r) == [x \in {y \in DOMAIN Ents(i, r) : Ents(i, r)[y].live \notin {"live", "conflict"}} |->
                             [a \in (DOMAIN Ents(i, r)[x].attrs) \cap Derived |-> Ents(i, r)[x].attrs[a]]]
-SesOf(i, r)  == [x \in DOMAIN Ents(i, r) |-> Ents(i, r)[x].ses]
+\* sessions of entries that are not in the conflict state (a conflict copy's sessions are one more of its attributes
+\* and are judged with them by CnfFlavour)
+SesOf(i, r)  == [x \in {y \in DOMAIN Ents(i, r) : Ents(i, r)[y].live # "conflict"} |-> Ents(i, r)[x].ses]
+AttrsS(e)    == IF DOMAIN e.ses = {} THEN e.attrs ELSE [a \in {"user_auth_token_session"} |-> e.ses] @@ e.attrs
 \* attribute disagreement on an entry that is in the conflict state on both replicas, by flavour
-CnfFlavour(a, b) ==
+CnfFlavour(a0, b0) ==
+  LET a == [attrs |-> AttrsS(a0)]  b == [attrs |-> AttrsS(b0)] IN
   IF a.attrs = b.attrs THEN "none"
   ELSE IF Without(a.attrs, Derived) = Without(b.attrs, Derived) THEN "conflict-entry-stale-memberof"
   ELSE IF Without(a.attrs, Derived \cup {"source_uuid"}) = Without(b.attrs, Derived \cup {"source_uuid"}) THEN "conflict-entry-source-uuid-set"
